@@ -74,6 +74,9 @@ type State struct {
 	noNaNInputs bool
 	keyMemo     map[*Term]*Term
 	replacements map[string]*Closure
+	ufVars       map[string]*Term
+	sqrtOf       map[*Term]*Term
+	absOf        map[*Term]*Term
 }
 
 var finfoMu sync.Mutex
